@@ -11,9 +11,9 @@ from vlib.explore import Violation
 from vlib.wire import build, normalise, same_json
 
 PROP = 'C05'
-PARAM_SHAPES = ('none', 'tuple0', 'list0', 'dict0', 'list1', 'list2', 'tuple1', 'dict1', 'dict2')
+PARAM_SHAPES = ('none', 'tuple0', 'list0', 'dict0', 'list1', 'list2', 'tuple1', 'dict1', 'dict2', 'nested')
 ID_SHAPES = ('none', 'int', 'str')
-RESULT_KINDS = ('null', 'bool', 'int', 'float', 'str', 'list0', 'list1', 'dict0', 'dict1')
+RESULT_KINDS = ('null', 'bool', 'int', 'float', 'str', 'list0', 'list1', 'dict0', 'dict1', 'nest')
 DATA_KINDS = ('absent',) + RESULT_KINDS
 ERR_SHAPES = ('generic', 'typed_default', 'typed_msg', 'typed_code', 'custom', 'custom_zero')
 
@@ -24,7 +24,7 @@ MANIFEST = dict(
          "error class == class registered for the code else the supplied base class (also inside batches).",
     ref='5 C05',
     note="value<->text is the stdlib json: exercised on each path's concrete witness through the real json.dumps(cls=JSONEncoder)/json.loads, not decided by the solver. "
-         "Payload nesting depth 1, batches <= 2 (quick) / 3 (thorough).",
+         "Payload nesting depth <= 3, batches <= 2 (quick) / 3 (thorough).",
 )
 BOUNDS = {
     'quick': {'request': '9 params shapes x 3 id shapes, symbolic method/id/leaves', 'response': '9 result kinds x 3 id shapes; errors: 6 constructions (incl. user classes registered for codes 0, -7, 2001) x 10 data kinds x 2 base classes',
@@ -32,7 +32,7 @@ BOUNDS = {
     'thorough': {'request': 'as quick', 'response': 'as quick', 'batch': '0..3 elements'},
 }
 STUBS = ['S4', 'S5', 'S13']
-OUTSIDE = ['escapes / control / astral characters at the text level (stdlib json; witness only)', 'payload nesting deeper than 1']
+OUTSIDE = ['escapes / control / astral characters at the text level (stdlib json; witness only)', 'payload nesting deeper than 3']
 ASSUMPTIONS = ['params compared modulo "no parameters": None, (), [], {} share one wire form (no params member)']
 BUDGET = {'quick': 40.0, 'thorough': 120.0}
 
@@ -130,6 +130,8 @@ def _mk_params(env, shape):
         return (env.int('p0'),)
     if shape == 'dict1':
         return {'a': env.int('p0')}
+    if shape == 'nested':
+        return [build(env, 'nest', 'pn', 2), None]
     return {'a': env.int('p0'), 'b': env.bool('p1')}
 
 
